@@ -418,6 +418,8 @@ class World(object):
         self.step_cap = 5000
         self.fatal = None
         self.aborting = False
+        self.env_hook = None            # callable(): apply one pending environment event now
+        self.env_pending = lambda: False
         self.decisions = []          # every decision actually taken, in order
         self.fault_counts = {}
         self.steps = 0
@@ -546,6 +548,11 @@ class World(object):
             if self.steps >= self.step_cap:
                 raise HarnessError('step cap %d exceeded' % self.step_cap)
             slot, directive = self.decider.decide(self, runnable)
+            while slot == -1 and directive.kind == 'env':
+                # an environment event between two system calls of the simulated processes
+                self.decisions.append(['env', -1])
+                self.env_hook()
+                slot, directive = self.decider.decide(self, runnable)
             p = self.procs[slot]
             if p.state != 'parked':
                 raise HarnessError('decider chose non-runnable slot %r' % slot)
